@@ -1291,6 +1291,23 @@ class Exec:
         if name == '__cxa_guard_release':
             s.store_val(st, a[0], I8, 1); return 0
         if name == '__cxa_guard_abort': return 0
+        if name in ('_ZNSt6chrono3_V212system_clock3nowEv', '_ZNSt6chrono3_V212steady_clock3nowEv', 'time', 'clock'):
+            s.stats['stubs'].add('clock -> 0 (timing is never the subject)'); return 0
+        if name in ('strtof', 'strtod'):
+            s.stats['stubs'].add(name + ' -> exact conversion of concrete text (Python float)')
+            bs = []
+            for i in range(64):
+                b = s.load_val(st, Ptr(a[0].obj, a[0].off + i), I8)
+                if not isc(b): raise Violation('unsupported', name + ' over symbolic bytes', st)
+                if b == 0: break
+                bs.append(b)
+            txt = bytes(bs).decode('latin1'); mm2 = re.match(r'\s*[-+]?(\d+\.?\d*([eE][-+]?\d+)?|\.\d+([eE][-+]?\d+)?|inf|nan)', txt, re.I)
+            val = float(mm2.group(0)) if mm2 else 0.0
+            if len(a) > 1 and isinstance(a[1], Ptr) and a[1].obj != 0: s.store_val(st, a[1], PTR(I8), Ptr(a[0].obj, a[0].off + (mm2.end() if mm2 else 0)))
+            if name == 'strtof':
+                val = struct.unpack('<f', struct.pack('<f', val))[0]
+                return s.fpconst(val, T('float')) if s.fpmode == 'real' else z3.FPVal(val, z3.Float32())
+            return s.fpconst(val, T('double'))
         if name == 'difftime':
             s.stats['stubs'].add('difftime(a,b) = (double)a - (double)b')
             def tod(v):
